@@ -18,6 +18,8 @@ for d in sorted(glob.glob("/verif/seeded/*/meta.json")):
                 break
     how = "native" if "demo_with_patch_miri" not in m else "miri"
     rc = m.get("recheck", {})
+    if not rc and m.get("round") == 9:
+        rc = {"reported_by": m.get("caught_by", [])}  # round 9 was run against the final machinery
     final = rc.get("note") or (", ".join(rc.get("reported_by", [])) if rc else "(not re-run)")
     rows.append("| %s | %s | %s | %s | %s | %s | %s |" % (name, title.replace("|", "/"), "yes" if m.get("valid") else "NO", how, "**yes**" if m.get("own_check_catches") else "no", ", ".join(m.get("caught_by", [])), final))
 print("| seed | change (first line of the sub-agent's README) | valid | demo decided | own check catches | reported by (all checks, when validated) | reported by (final machinery; only the checks of the previous column and the seed's own were re-run) |")
